@@ -142,9 +142,14 @@ SIG_CAT_KINDS = _by_cat(SIG_KINDS)
 RET_CAT_KINDS = _by_cat([k for k in KIND_NAMES if k != 'GError**'])
 
 
+# type kinds for which few annotations are decided get a double share so that every kind clears the health gate
+HEAVY = ('error', 'foreign', 'foreignptr', 'basicpp')
+
+
 @st.composite
 def _kind(draw, table):
-    return draw(st.sampled_from(table[draw(st.sampled_from(list(table)))]))
+    cats = list(table) + [c for c in HEAVY if c in table]
+    return draw(st.sampled_from(table[draw(st.sampled_from(cats))]))
 
 
 def cat_of(kind):
@@ -425,7 +430,8 @@ def effective_dirs(c):
         ds = set()
         for vid, decided in lst:
             if vid == 'ret':
-                ds.add('ret')
+                # a (bogus) direction annotation on the return value is not a documented notion
+                ds.add('unknown' if own_direction(c['ret']['ann']) else 'ret')
             elif vid in owners:
                 ds.add('unknown')
             elif not decided and dirs[vid] != dirs[t]:
@@ -866,9 +872,9 @@ def _annotations(draw, c, vid):
                                           ['out', 'callee-allocates']])))
     n = draw(st.sampled_from([0, 1, 1, 2, 2, 3]))
     for _ in range(n):
-        want = draw(st.sampled_from([AR.APPLICABLE, AR.APPLICABLE, AR.INAPPLICABLE, AR.INAPPLICABLE, None]))
+        want = draw(st.sampled_from([AR.APPLICABLE, AR.INAPPLICABLE, AR.INAPPLICABLE, None]))
         pick = None
-        for _try in range(4):
+        for _try in range(6 if want == AR.INAPPLICABLE else 4):
             cand = draw(_candidate(names, is_ret))
             if any(b[0] == cand[0] for b in anns) or (cand[0] in DIRECTIONS and own_direction(anns)):
                 continue
